@@ -283,6 +283,7 @@ func execStep(pool []*core.StructSpec, st c07Step) (stepResult, bool, *Failure) 
 	switch st.Op {
 	case "size", "encode":
 		src := b.NewValue(st.V)
+		c07LastDest, c07LastBound, c07LastSpec = src, b, s // the value handed to size/encode is kept like a destination
 		var arg interface{} = src.Interface()
 		if st.ByValue {
 			arg = src.Elem().Interface()
@@ -441,8 +442,20 @@ func runC07(w *worker) func(c c07Case) *Failure {
 					return lf
 				}
 				if h != k.hash {
-					return failf("earlier-destination-changed", "after step %d (%s on pool type %d) the destination of the decode of step %d (which had %s) no longer reads as it did right after that call", i, st.Op, st.T, k.step, map[bool]string{true: "succeeded", false: "failed"}[k.ok])
+					return failf("earlier-destination-changed", "after step %d (%s on pool type %d) the destination (or encoded value) of step %d (which had %s) no longer reads as it did right after that call", i, st.Op, st.T, k.step, map[bool]string{true: "succeeded", false: "failed"}[k.ok])
 				}
+			}
+			if (st.Op == "size" || st.Op == "encode") && c07LastDest.IsValid() {
+				// a value that was sized or encoded is the caller's: it reads the same after every later call
+				var h string
+				if lf := safely("reading an encoded value", func() { h = hashStr(core.CanonStruct(c07LastSpec, c07LastBound.Lift(c07LastDest.Elem()))) }); lf != nil {
+					return lf
+				}
+				kept = append(kept, c07Kept{c07LastDest, c07LastBound, c07LastSpec, h, i, true})
+				if len(kept) > 5 {
+					kept = kept[1:]
+				}
+				c07LastDest = reflect.Value{}
 			}
 			if (st.Op == "decode" || st.Op == "decodebad" || st.Op == "deep") && c07LastDest.IsValid() && !stepSpec(pool, st).AnyNoCopy() {
 				kept = append(kept, c07Kept{c07LastDest, c07LastBound, c07LastSpec, res.Dest, i, ok})
